@@ -1,5 +1,8 @@
 import PyYetiVerif.Model.Op2
 import PyYetiVerif.Model.Op2Read
+import PyYetiVerif.Model.Op4VariantsRead
+import PyYetiVerif.Model.Op4VariantsAscii
+import PyYetiVerif.Model.Op2ReadForms
 /-! Line protocol for C11 (numbers decimal, byte strings hex).
 
   encv <l|b> <bit64> <single> <n> vmat…        → hex bytes of an OUTPUT4 binary variant file
@@ -20,6 +23,20 @@ import PyYetiVerif.Model.Op2Read
                M <storedrows> <cplx> <width> <ncols> { <nnz> { <row>:<bits> } } <endpos>
              | T <nrec> { <n> key… } <endpos>  |  E <class>
      mats  = <n> { <namehex|-> M … }  |  E <class>            (`rdop2mats()`)
+  rd4 <cut> <mode> <names|-> <hex>   → the binary OUTPUT4 reader model of Model/Op4VariantsRead.lean on the bytes;
+     mode d|s|a = `op4.load(file, namelist, into='list', sparse=False|True|None)`, l = `op4.dir(file)`,
+     * = `d ;; s ;; a ;; l`; names = comma separated hex names (`-`: no name list); cut = `_rowsCutoff`
+     reply `err <class>` or `ok <l|b> <bit64> item|item|…`
+     item (load) = <namehex>,<rows>,<cols>,<form>,<mtype>,<layout d|b|n>,<sparse 0|1>,<width>,<data>
+       data (dense)  = per column `<nnz> <idx>:<bits> …` over the stored reals (2 per complex element) | huge | put-error:<class>
+       data (sparse) = `<r> <c> <bits> [<bits>]` per element, file order | put-error:<class>
+     item (dir)  = <namehex>,<abs rows>,<cols>,<form>,<mtype>
+  rda <names|-> <hex>   → `op4.load(file, namelist, into='list')` on an ASCII file by the name-list loop of
+     Model/Op4VariantsAscii.lean: `err` | `ok item|item|…`, item = <namehex>,<rows>,<cols>,<form>,<mtype>,<nputs>,<nvalues>
+  rec2 <l|b> <bit64> <cut> <form i|u|s|d|b> <N> <hex>   → `rdop2record(form, N)` of Model/Op2ReadForms.lean on the bytes
+     (positioned at a record): `err <class>` | `none <consumed>` | `ok <consumed> <n> item…` (bit patterns / bytes)
+  mats2 <which int|all> <names|-> <hex>   → `rdop2mats(names, which)` on a whole OUTPUT2 file:
+     `err <class>` | `ok <n> { <namehex> <k> { M … } }`
 -/
 open PyYetiVerif.Op4 PyYetiVerif.Op4V PyYetiVerif.Op2 PyYetiVerif.Op2R
 
@@ -237,6 +254,105 @@ def rd2 (f : List Nat) : String :=
     out := out ++ mats
     return " ".intercalate out.toList
 
+/-! ### the binary OUTPUT4 reader model -/
+
+open PyYetiVerif.Op4VR in
+def showDec4 (v : V2) (mode : Char) (d : VDec) : String :=
+  let cplx := decide (d.mtype ≥ 3)
+  let m := if cplx then 2 else 1
+  let rows := d.rows.natAbs
+  let cols := d.cols.toNat
+  let width := (PyYetiVerif.Op4VR.cfgOf v 0 d.mtype).rb
+  let sparse := match mode with
+    | 's' => true
+    | 'd' => false
+    | _ => d.sparseAuto
+  let lay := match d.layout with | .dense => "d" | .bigmat => "b" | .nonbigmat => "n"
+  let head := s!"{toHex d.name},{d.rows},{d.cols},{d.form},{d.mtype},{lay},{if sparse then 1 else 0},{width},"
+  if sparse then
+    match PyYetiVerif.Op4VR.cooOfPuts m d.puts with
+    | .error e => head ++ "put-error:" ++ errName e
+    | .ok trip =>
+      -- `coo_matrix((V, (I, J)), shape)` refuses indices outside the shape
+      if trip.any (fun t => t.1 ≥ rows ∨ t.2.1 ≥ cols) then head ++ "put-error:value" else
+      head ++ " ".intercalate (trip.map fun (r, c, xs) =>
+        let xs := if cplx && width == 8 then
+            match xs with
+            | [a, b] => let e := PyYetiVerif.Op4.cooEntry true (a, b); [e.1, e.2]
+            | _ => xs
+          else xs
+        s!"{r} {c} " ++ " ".intercalate (xs.map toString))
+  else
+    if rows * cols > 20000000 then head ++ "huge" else
+    match PyYetiVerif.Op4VR.applyPuts m rows cols d.puts with
+    | .error e => head ++ "put-error:" ++ errName e
+    | .ok X => head ++ " ".intercalate (X.map fun col => Id.run do
+        let mut i := 0
+        let mut ent : Array String := #[]
+        for x in col do
+          if x != 0 then ent := ent.push s!"{i}:{x}"
+          i := i + 1
+        return " ".intercalate (toString ent.size :: ent.toList))
+
+open PyYetiVerif.Op4VR in
+def rd4 (cut : Int) (mode : Char) (pl : List (List Nat)) (f : List Nat) : String :=
+  match PyYetiVerif.Op4VR.detect f with
+  | .error e => "err " ++ errName e
+  | .ok none => "err ascii"
+  | .ok (some v) =>
+    let head := s!"ok {match v.e with | .little => "l" | .big => "b"} {if v.bit64 then 1 else 0} "
+    let ld := PyYetiVerif.Op4VR.loadLoop v cut pl (f.length + 1) 0 f
+    let one := fun (m : Char) => match ld with
+      | .error e => "err " ++ errName e
+      | .ok ds => head ++ "|".intercalate (ds.map (showDec4 v m))
+    let dr := match PyYetiVerif.Op4VR.dirLoop v (f.length + 1) 0 f with
+      | .error e => "err " ++ errName e
+      | .ok ls => head ++ "|".intercalate (ls.map fun (n, r, c, fo, t) => s!"{toHex n},{r},{c},{fo},{t}")
+    match mode with
+    | 'l' => dr
+    | '*' => " ;; ".intercalate [one 'd', one 's', one 'a', dr]
+    | m => one m
+
+/-! ### the ASCII name-list loop, `rdop2record(form, N)`, `rdop2mats(names, which)` -/
+
+def rda (pl : List (List Nat)) (f : List Nat) : String :=
+  match PyYetiVerif.Op4VA.loadAsciiNamed pl (f.map Char.ofNat) with
+  | none => "err"
+  | some l => "ok " ++ "|".intercalate (l.map fun (n, d) =>
+      s!"{toHex n},{d.rows},{d.cols},{d.form},{d.mtype},{d.puts.length},{(d.puts.map fun p => p.2.2.length).sum}")
+
+def formOf (t : String) : Option PyYetiVerif.Op2RF.Form :=
+  match t with
+  | "i" => some .int
+  | "u" => some .uint
+  | "s" => some .single
+  | "d" => some .double
+  | "b" => some .bytes
+  | _ => none
+
+def rec2 (v : V2) (cut : Int) (fm : PyYetiVerif.Op2RF.Form) (N : Nat) (f : List Nat) : String :=
+  match PyYetiVerif.Op2RF.rdRecordF v cut fm N f with
+  | .error e => "err " ++ errName e
+  | .ok (none, s) => s!"none {f.length - s.length}"
+  | .ok (some xs, s) => s!"ok {f.length - s.length} {xs.length} " ++ " ".intercalate (xs.map toString)
+
+def mats2 (w : PyYetiVerif.Op2RF.Which) (names : Option (List (List Nat))) (f : List Nat) : String :=
+  match openOp2 f with
+  | .error e => "err " ++ errName e
+  | .ok o =>
+    match PyYetiVerif.Op2RF.rdMatsSel o.v f o.dir names w with
+    | .error e => "err " ++ errName e
+    | .ok l => Id.run do
+      let mut a : Array String := #["ok", toString l.length]
+      for (n, ms) in l do
+        a := (a.push (hexOrDash n)).push (toString ms.length)
+        for m in ms do
+          a := matToks m a
+      return " ".intercalate a.toList
+
+def namesTok (t : String) : Option (List (List Nat)) :=
+  if t == "-" then some [] else (t.splitOn ",").mapM fun x => unhex x.toList
+
 def run (p : P String) (ws : List String) : String :=
   match p.run ws with
   | some (s, []) => s
@@ -274,6 +390,28 @@ def answer (line : String) : String :=
     | some f => rd2 f
     | none => "bad-op"
   | ["rd2"] => rd2 []
+  | ["rd4", cut, mode, names, hx] =>
+    match cut.toInt?, mode.toList, namesTok names, unhexFast hx with
+    | some cut, [m], some pl, some f => rd4 cut m pl f
+    | _, _, _, _ => "bad-op"
+  | ["rda", names, hx] =>
+    match namesTok names, unhexFast hx with
+    | some pl, some f => rda pl f
+    | _, _ => "bad-op"
+  | ["rec2", e, b64, cut, fm, n, hx] =>
+    match (if e == "l" then some Endian.little else if e == "b" then some Endian.big else none), cut.toInt?, formOf fm,
+        n.toNat?, unhexFast hx with
+    | some e, some cut, some fm, some n, some f => rec2 ⟨e, b64 == "1"⟩ cut fm n f
+    | _, _, _, _, _ => "bad-op"
+  | ["mats2", w, names, hx] =>
+    match (if w == "all" then some PyYetiVerif.Op2RF.Which.all else w.toInt?.map PyYetiVerif.Op2RF.Which.idx),
+        namesTok names, unhexFast hx with
+    | some w, some pl, some f => mats2 w (if names == "-" then none else some pl) f
+    | _, _, _ => "bad-op"
+  | ["rd4", cut, mode, names] =>
+    match cut.toInt?, mode.toList, namesTok names with
+    | some cut, [m], some pl => rd4 cut m pl []
+    | _, _, _ => "bad-op"
   | _ => "bad-op"
 
 partial def loop (h : IO.FS.Stream) (out : IO.FS.Stream) : IO Unit := do
